@@ -1323,7 +1323,7 @@ def transform_stream(ctx):
     for v in (['1', '2.5'], ['1', 'x'], [], ['true'], ['inf', 'nan'], ['1_0', '2'], ['1__0', '2'], [' 1', '2 '],
               ['H2', 'He'], ['', '1'], ['1e5'], ['no', '1']):
         eval_transform(ctx, v)
-    for _ in range(ctx.n(300, 12000)):
+    for _ in range(ctx.n(3000, 60000)):
         m = int(rng.integers(0, 6))
         if m <= 1:
             v = num_literal(rng)
@@ -1797,7 +1797,7 @@ def run(ctx):
         lookup_stream(ctx)
         transform_stream(ctx)
         fg = FileGen(rng, s.scratch)
-        n = ctx.n(260, 6000)
+        n = ctx.n(1500, 24000)
         for i in range(n):
             fl = ['plain', 'plain', 'mixin', 'custom'][i % 4]
             case = fg.file(fl)
@@ -1811,7 +1811,7 @@ def run(ctx):
                                  custom_src=case['custom_src'], malformed=case.get('malformed'),
                                  flavour=case.get('flavour'), meta=case['meta'])
         opac = make_opacities(s.scratch, rng)
-        for i in range(ctx.n(8, 120)):
+        for i in range(ctx.n(24, 240)):
             case = gen_cli_case(rng, opac)
             eval_cli(ctx, case, s.scratch)
             clear_caches()
